@@ -22,7 +22,7 @@ Atoms(t) ==
     [] t = 2 -> [ A  |-> A1("size", "gt", IntL(10), ""),
                   Ai |-> A1("size", "lte", IntL(1024), ""),
                   B  |-> A1("name", "eq", TextL(<<"*",".","l","o","g">>), ""),
-                  Bi |-> A1("ext", "eeq", TextL(<<"t","x","t">>), ""),
+                  Bi |-> A1("name", "eeq", TextL(<<"p","?",".","t","x","t">>), ""),
                   C  |-> A1("modified", "gte", DateL(T0 + 54000, T0 + 57599, "2017-05-01 15"), "") ]
     [] t = 3 -> [ A  |-> A1("size", "gte", IntL(1024), ""),
                   Ai |-> A1("size", "lt", IntL(10), ""),
